@@ -243,6 +243,11 @@ pub fn def(ctx: &Ctx) -> PropertyDef {
         mk("await/put;await;get", vec![], vec![vec![Op::Put { k: 1, w: Some(2), ttl_ms: None }, Op::Await { call: 0 }, Op::Read { k: 1, variant: ReadVariant::Get }]]),
         mk("await/delete;await;get", vec![Op::Put { k: 1, w: Some(2), ttl_ms: None }], vec![vec![Op::Delete { k: 1 }, Op::Await { call: 0 }, Op::Read { k: 1, variant: ReadVariant::Get }]]),
         mk("await/upsert-weight;await", vec![Op::Put { k: 1, w: Some(2), ttl_ms: None }], vec![vec![Op::Upsert { k: 1, value: true, w: Some(3), ttl_ms: None, remove_ttl: false }, Op::Await { call: 0 }, Op::Read { k: 1, variant: ReadVariant::Get }]]),
+        // acknowledgements of commands whose key is gone by the time the worker reaches them
+        mk("await/delete;upsert-weight unawaited;await both", vec![Op::Put { k: 1, w: Some(2), ttl_ms: None }], vec![vec![Op::Delete { k: 1 }, Op::Upsert { k: 1, value: true, w: Some(3), ttl_ms: None, remove_ttl: false }, Op::Await { call: 0 }, Op::Await { call: 1 }]]),
+        mk("await/delete;delete unawaited;await both", vec![Op::Put { k: 1, w: Some(2), ttl_ms: None }], vec![vec![Op::Delete { k: 1 }, Op::Delete { k: 1 }, Op::Await { call: 1 }, Op::Await { call: 0 }]]),
+        mk("await/upsert-weight;await || {tick} sweeping k", vec![Op::Put { k: 1, w: Some(2), ttl_ms: Some(1000) }, Op::Advance { ms: 3000 }], vec![vec![Op::Upsert { k: 1, value: true, w: Some(3), ttl_ms: None, remove_ttl: false }, Op::Await { call: 0 }], vec![Op::Tick]]),
+        mk("await/evicting-put;await || upsert-weight(a);await", vec![Op::Put { k: 1, w: Some(6), ttl_ms: None }, Op::Put { k: 2, w: Some(4), ttl_ms: None }], vec![vec![Op::Put { k: 3, w: Some(7), ttl_ms: None }, Op::Await { call: 0 }], vec![Op::Upsert { k: 1, value: true, w: Some(5), ttl_ms: None, remove_ttl: false }, Op::Await { call: 0 }]]),
         mk(
             "await/two-clients",
             vec![],
